@@ -41,3 +41,75 @@ impl HashSet<usize> {
             forall|i: int, j: int| 0 <= i < j < r.items().len() ==> r.items()[i] != r.items()[j],
     { unimplemented!() }
 }
+
+// ---- additions for merge.rs ----
+#[verifier::external_body]
+#[verifier::reject_recursive_types(T)]
+pub struct SetIntoIter<T> { p: core::marker::PhantomData<T> }
+impl SetIntoIter<usize> {
+    #[verifier::external_body]
+    pub fn collect(self) -> (r: Vec<usize>) { unimplemented!() }
+}
+impl HashSet<usize> {
+    /// std `FromIterator::from_iter` as instantiated for a Vec<usize>
+    #[verifier::external_body]
+    pub fn from_iter(v: Vec<usize>) -> (r: Self) ensures forall|x: usize| r.view().contains(x) <==> v@.contains(x) { unimplemented!() }
+    #[verifier::external_body]
+    pub fn into_iter(self) -> (r: SetIntoIter<usize>) { unimplemented!() }
+}
+/// `&a - &b`: set difference
+impl<'a> core::ops::Sub<&'a HashSet<usize>> for &'a HashSet<usize> {
+    type Output = HashSet<usize>;
+    #[verifier::external_body]
+    fn sub(self, rhs: &'a HashSet<usize>) -> (r: HashSet<usize>)
+        ensures r.view() == self.view().difference(rhs.view())
+    { unimplemented!() }
+}
+impl<'a> vstd::std_specs::ops::SubSpecImpl<&'a HashSet<usize>> for &'a HashSet<usize> {
+    open spec fn obeys_sub_spec() -> bool { false }
+    open spec fn sub_req(self, rhs: &'a HashSet<usize>) -> bool { true }
+    open spec fn sub_spec(self, rhs: &'a HashSet<usize>) -> HashSet<usize> { arbitrary() }
+}
+pub assume_specification<T: core::cmp::Ord>[ <[T]>::sort_unstable ](s: &mut [T]);
+
+#[verifier::external_body]
+#[verifier::reject_recursive_types(K)]
+#[verifier::reject_recursive_types(V)]
+pub struct HashMap<K, V> { p: core::marker::PhantomData<(K, V)> }
+#[verifier::external_body]
+pub struct MapKeys<'a> { p: core::marker::PhantomData<&'a usize> }
+#[verifier::external_body]
+pub struct MapKeysCopied<'a> { p: core::marker::PhantomData<&'a usize> }
+impl<'a> MapKeys<'a> {
+    #[verifier::external_body]
+    pub fn copied(self) -> (r: MapKeysCopied<'a>) { unimplemented!() }
+}
+impl<'a> MapKeysCopied<'a> {
+    #[verifier::external_body]
+    pub fn collect<C>(self) -> (r: Vec<usize>) { unimplemented!() }
+}
+impl HashMap<usize, usize> {
+    pub uninterp spec fn view(&self) -> Map<usize, usize>;
+
+    #[verifier::external_body]
+    pub fn new() -> (r: Self) ensures r.view() == Map::<usize, usize>::empty() { unimplemented!() }
+
+    #[verifier::external_body]
+    pub fn contains_key(&self, k: &usize) -> (r: bool) ensures r == self.view().contains_key(*k) { unimplemented!() }
+
+    #[verifier::external_body]
+    pub fn insert(&mut self, k: usize, v: usize) -> (r: Option<usize>)
+        ensures final(self).view() == old(self).view().insert(k, v),
+    { unimplemented!() }
+
+    #[verifier::external_body]
+    pub fn get(&self, k: &usize) -> (r: Option<&usize>)
+        ensures match r { Some(v) => self.view().contains_key(*k) && *v == self.view()[*k], None => !self.view().contains_key(*k) },
+    { unimplemented!() }
+
+    #[verifier::external_body]
+    pub fn len(&self) -> (r: usize) ensures r == self.view().dom().len() { unimplemented!() }
+
+    #[verifier::external_body]
+    pub fn keys(&self) -> (r: MapKeys<'_>) { unimplemented!() }
+}
